@@ -225,7 +225,8 @@ pub fn run_ops(ctx: &Ctx, sc: &Scenario, reset: bool) -> Outcome {
                         out.canaries.push(c.clone());
                     }
                     out.probes.add(&obs.probes);
-                    out.transitions.extend(obs.transitions.iter().cloned());
+                    // abstract transition = (text class, output status before, after) reached after this kind of op
+                    out.transitions.extend(obs.transitions.iter().map(|(a, b, c)| (format!("{a} after {last_op}"), b.clone(), c.clone())));
                     for f in &obs.failures {
                         if let Some(inv) = claimed(&sc.property, tag, f.invariant) {
                             let key = key_for(&sc.property, inv, f.invariant, f, &out, &last_op, node);
